@@ -222,7 +222,7 @@ pub fn replay_main(args: &[String]) -> i32 {
             let key = format!("{why} [{what}]");
             let n = cats.entry(key).or_insert(0);
             *n += 1;
-            if *n <= 50_000 {
+            if *n <= 500_000 {
                 let mut o = stdout.lock();
                 let _ = writeln!(o, "FAIL {}", json!({"rec": recj, "detail": detail}));
             }
